@@ -37,6 +37,7 @@ RULE += ' Round 9: 60 short-lived readers per file count, each dropped before th
 RULE += " Round 10: file names with several dots; column-major .npy files; a compressed file opened with a header kept elsewhere (another recording's header lies beside the data)."
 RULE += ' Round 11: a file listed twice in one recording; runs of consecutive rows that end at the maximum of a uint8 / int8 index array.'
 RULE += ' Round 12: in-memory arrays that are column-major or strided views, edited by their owner after the reader was created.'
+RULE += ' Round 13: row selectors written as one-element tuples; a 140-file recording.'
 EXHAUSTIVE = {'quick': True, 'thorough': True}
 EXHAUSTIVE_SCOPE = {'quick': 'n <= 6, all compositions; dtype/channel/offset axes rotate (not crossed)',
                     'thorough': 'n <= 9, all compositions x all dtypes; random larger layouts sampled'}
